@@ -101,6 +101,13 @@ def shard_main(args):
     _quiet_logging()
     sys.setrecursionlimit(20000)
     try:
+        # `kill -USR1 <shard pid>` prints the shard's Python stack to stderr (debugging aid for slow cases)
+        import faulthandler
+        import signal
+        faulthandler.register(signal.SIGUSR1, all_threads=False)
+    except Exception:  # noqa
+        pass
+    try:
         import resource
         lim = int(os.environ.get("VERIF_SHARD_MEM_GB", "4")) * (1 << 30)
         resource.setrlimit(resource.RLIMIT_AS, (lim, lim))
